@@ -168,8 +168,10 @@ pub fn check(ctx: &mut Ctx, case: &Case) -> Option<Run> {
         }
     }
 
-    // --- independent length law (single voice, alignment off)
-    if let (Some(rv), false, true) = (case.refv, case.cond.alignment, case.wellformed) {
+    // --- independent length law (single voice; alignment off, or on with no time on any label:
+    // the model's own durations then, whatever the speed setting)
+    let untimed = case.lines.as_ref().map(|l| l.iter().all(|x| !x.contains(' '))).unwrap_or(true);
+    if let (Some(rv), true, true) = (case.refv, !case.cond.alignment || untimed, case.wellformed) {
         let mut f1 = 0usize;
         let mut amb = false;
         let mut per_state = Vec::new();
@@ -192,7 +194,10 @@ pub fn check(ctx: &mut Ctx, case: &Case) -> Option<Run> {
             }
         }
         if oracle_ok && per_state.len() == run.durations.len() {
-            let speed = engine.condition.get_speed();
+            let speed = if case.cond.alignment { 1.0 } else { engine.condition.get_speed() };
+            if case.cond.alignment {
+                ctx.count("aligned_utterances_without_times_checked_against_the_model_durations", 1.0);
+            }
             if speed == 1.0 {
                 for (i, ((d, a), got)) in per_state.iter().zip(&run.durations).enumerate() {
                     if d != got && !*a {
